@@ -17,6 +17,7 @@ import sys
 import time
 
 VERIF = os.path.dirname(os.path.dirname(os.path.abspath(__file__)))
+KEY = None
 
 
 def sh(cmd, cwd=None, env=None, timeout=3600):
@@ -29,13 +30,15 @@ def sh(cmd, cwd=None, env=None, timeout=3600):
 
 def main():
     prop, sdir, n = sys.argv[1], sys.argv[2], sys.argv[3]
-    extra = sys.argv[4:]
+    extra = [a for a in sys.argv[4:] if not a.startswith("--key=")]
+    global KEY
+    KEY = ([a[6:] for a in sys.argv[4:] if a.startswith("--key=")] or [f"{prop}-{n}"])[0]
     patch = os.path.join(sdir, f"seed{n}.patch")
     demo_rs = os.path.join(sdir, f"seed{n}_demo.rs")
     demo_py = os.path.join(sdir, f"seed{n}_demo.py")
     is_py = os.path.exists(demo_py) and (not os.path.exists(demo_rs) or "use ivp" not in open(demo_rs).read())
     demo = demo_py if is_py else demo_rs
-    wt = f"/tmp/st-{prop}-{n}"
+    wt = f"/tmp/st-{KEY}"
     sh(f"git -C /repo worktree remove --force {wt}")
     shutil.rmtree(wt, ignore_errors=True)
     rc, out = sh(f"git -C /repo worktree add -q {wt} HEAD")
@@ -95,7 +98,7 @@ def main():
 
 
 def finish(meta, prop, n, patch, demo):
-    d = os.path.join(VERIF, "seeded", f"{prop}-{n}")
+    d = os.path.join(VERIF, "seeded", KEY)
     os.makedirs(d, exist_ok=True)
     shutil.copy(patch, os.path.join(d, "patch.diff"))
     if os.path.exists(demo):
